@@ -11,6 +11,7 @@ removal and simplification) never change which strings match.
 import ZoektModel.C27.Lemmas
 import ZoektModel.C27.Printer
 import ZoektModel.C27.Escape
+import ZoektModel.C27.EscapeClass
 import ZoektModel.C27.EndsSound
 import ZoektModel.C27.EndsComplete
 import ZoektModel.C27.Spec
@@ -171,6 +172,14 @@ theorem escape_reads_back (isPrint : Nat → Bool) (r : Nat) (force : Bool) (res
     (hr : r ≤ 0x10FFFF) (hv : isPrint r = true → (Char.ofNat r).toNat = r) (hf : force = true → r = 45) :
     readRune (escape isPrint r force ++ rest) = some (r, rest) :=
   readRune_escape isPrint r force rest hr hv hf
+
+/-- **lexical layer, character classes: the printed body of a positive class round-trips**.  The items the printer
+    writes (`lo`, `lo-hi`, with `-` escaped at either end of an item) followed by `]` are read back as exactly the
+    same list of ranges by a reader following `parseClass`'s rules (a `-` makes a range unless `]` follows it). -/
+theorem class_body_reads_back (isPrint : Nat → Bool) (hv : ∀ r, isPrint r = true → (Char.ofNat r).toNat = r)
+    (rs : List Nat) (hw : WFClass rs) (rest : List Char) :
+    readClassItems (rs.length + 1) (classPairs isPrint rs ++ ']' :: rest) = some (rs, rest) :=
+  readClassItems_classPairs isPrint hv rest rs (rs.length + 1) hw (Nat.lt_succ_self _)
 
 /-- the token printer is the character printer -/
 theorem print_tokens_render (isPrint : Nat → Bool) (r : Re) : render isPrint (printTok r) = printRe isPrint r :=
